@@ -89,7 +89,7 @@ impl HistCfg {
             gen: GenCfg {
                 alphabet: 4,
                 max_depth: 3,
-                ops: Some(vec!["v", "c0", "f2", "g3", "c1", "w", "p", "lam", "let", "sum2", "", "t3", "q2"]),
+                ops: Some(vec!["v", "c0", "f2", "g3", "c1", "w", "p", "lam", "let", "sum2", "", "t3", "q2", "bb"]),
                 ..GenCfg::default()
             },
             max_ops: 6,
